@@ -439,12 +439,18 @@ impl<T: Sync + Send + 'static> Nucleo<T> {
                     // free now and this tick can pick up the results itself.
                     std::sync::atomic::fence(std::sync::atomic::Ordering::SeqCst);
                     match self.worker.try_lock_arc() {
-                        Some(worker) => worker,
+                        Some(worker) => {
+                            #[cfg(nucleo_verif)]
+                            crate::verif::hit("tick.retry_lock", 0, [1, 0, 0, 0]);
+                            worker
+                        }
                         None => {
+                            #[cfg(nucleo_verif)]
+                            crate::verif::hit("tick.retry_lock", 0, [0, 0, 0, 0]);
                             return Status {
                                 changed: false,
                                 running: true,
-                            }
+                            };
                         }
                     }
                 }
@@ -503,6 +509,8 @@ impl<T: Sync + Send + 'static> Nucleo<T> {
                 // the flag and then tries the lock once more, so either this load sees the
                 // flag or that tick gets the lock
                 drop(inner);
+                #[cfg(nucleo_verif)]
+                crate::verif::hit("run.unlocked", 0, [finished as u64, 0, 0, 0]);
                 std::sync::atomic::fence(std::sync::atomic::Ordering::SeqCst);
                 if finished && should_notify.load(atomic::Ordering::Relaxed) {
                     notify()
